@@ -25,7 +25,7 @@ def hmgetLog (d : DS) (keys : List (Nat × Nat)) : String :=
   let idxs := allIdx d.cfg.m d.cfg.k keys
   if idxs.isEmpty then " " ++ call "hmget" "@:cbf" "" "-ERR" else " " ++ call "hmget" "@:cbf" (natsC idxs) (hmgetReply d.st.h idxs)
 
-def step (d : DS) (ws : List String) : DS × String :=
+def stepBase (d : DS) (ws : List String) : DS × String :=
   match ws with
   | ["reset", m, k, _, _] =>
     match m.toNat?, k.toNat? with
@@ -102,5 +102,18 @@ def step (d : DS) (ws : List String) : DS × String :=
     | some key, some v => (d, if !d.sp.clean ∨ v ≥ d.sp.get key then "1" else "0")
     | _, _ => (d, "bad-op")
   | _ => (d, "bad-op")
+
+/-- `overlap <opA…> / <opB…>`: opA was parked in the client before its arguments were read while opB
+ran to completion, so the server executed opB first; the model's answer for each is the ordinary one
+(the arguments of a call depend on its own items only, `Rv.C35.argv_depends_only_on_item`). -/
+def step (d : DS) (ws : List String) : DS × String :=
+  match ws with
+  | "overlap" :: rest =>
+    let a := rest.takeWhile (· != "/")
+    let b := (rest.dropWhile (· != "/")).drop 1
+    let r1 := stepBase d b
+    let r2 := stepBase r1.1 a
+    (r2.1, r2.2 ++ " | " ++ r1.2)
+  | _ => stepBase d ws
 
 def main : IO Unit := Hex.lineLoop ({} : DS) step
